@@ -1,5 +1,5 @@
 """property id -> check function(prop, tier, seed, replay) -> exit code"""
-from . import checks_civil, checks_zone
+from . import checks_civil, checks_load, checks_misc, checks_zone
 
 CHECKS = {}
 for _p in ("C01", "C02", "C03", "C06", "C10", "C11"):
@@ -7,4 +7,9 @@ for _p in ("C01", "C02", "C03", "C06", "C10", "C11"):
 for _p in ("C04", "C05", "C17"):
     CHECKS[_p] = checks_civil.run
 
-PREBUILD = [("asan", "zonemon"), ("asan", "civilmon")]
+for _p in ("C15", "C16"):
+    CHECKS[_p] = checks_misc.run
+
+CHECKS["C12"] = checks_load.run
+
+PREBUILD = [("asan", "loadmon"), ("pat", "loadmon"), ("zero", "loadmon"), ("asan", "zonemon"), ("asan", "civilmon"), ("asan", "fixedmon"), ("asan", "posixmon")]
